@@ -5,7 +5,7 @@ SPEC = {
     "required_theorems": ["reassembly_network1", "reassembly_network2", "recvFullMsg_spec", "drain_spec", "unsupported_channel",
                           "good_keepalive", "reassembly_network1_keepalive", "reassembly_network2_keepalive",
                           "good_lenCodec", "reassembly_network1_lenCodec"],
-    "streams": [{"name": "reasm", "quick": 400, "thorough": 8000, "timeout": 3000}],
+    "streams": [{"name": "reasm", "quick": 400, "thorough": 12000, "timeout": 3000}],
     "rule": "a case = one random sequence of 1..8 real protocol messages of one mini-protocol (network1: handshake n2n/n2c, chainsync "
             "header/block content, blockfetch, txsubmission, keepalive, peersharing, local state query, local tx submission, tx monitor; "
             "network2 AnyMessage: handshake, keepalive, chainsync, peersharing, blockfetch, txsubmission, leios-notify, leios-fetch; "
